@@ -69,18 +69,46 @@ META = {
             "cells — or_cyclic_display_differs is a concrete session on which (or #f (display p)) and its expansion print different "
             "text in Spec.Eval (valToDatum_cyclic_fuel_matters the one-cell core) — guardN turns 'a store-size-fuelled helper ran "
             "into its bound' into a time-out; it agrees with evalN wherever definite (guarded_refines) and the helpers are monotone "
-            "from there (valToDatum_stable, listOfVal_stable, equalVal_stable, memWalk_stable, zipArgs_stable). NOT proved: the "
-            "converse direction (expansion definite => native definite; needs the simulation from the larger store to the smaller, "
-            "i.e. a depth bound for acyclic data), freeness in the precise sense (bound occurrences of var1 are excluded too), pair / "
+            "from there (valToDatum_stable, listOfVal_stable, equalVal_stable, memWalk_stable, zipArgs_stable). CONVERSE direction (expansion definite => native "
+            "definite with the SAME fuel and the related outcome): CLOSED for or (>= 2 operands), cond test / => clauses, case rule 1 "
+            "(t01_2_or_converse, t01_2_cond_test_converse, t01_2_cond_arrow_converse, t01_2_case_key_converse; AgreesConv 1) and for "
+            "case rules 4-7 (t01_2_case_body_converse, t01_2_case_arrow_converse; AgreesConv atoms.length — NB vacuous from stores "
+            "with fewer cells than the clause has data: the expansion's own memv walks the fresh quoted list within the slack), by "
+            "a simulation from the LARGER store to the smaller (Lemmas/EvalConverse*.lean, ~2000 lines: ResRelR/SimR/recSimR, a "
+            "mechanical mirror of EvalExtra* plus cut_transfer; extra_cell_invariance_converse). The guard sits on the expansion's "
+            "side with slack k = number of extra cells (sguardN k: no helper within k of its bound; sguardN k n refines evalN n: "
+            "slack_guarded_refines; sguardN 0 = guardN) and the native run is then shown not to hit ITS guard either. When the "
+            "guards are quiet: acyclic data shallower than the helper fuel (guards_quiet_on_ranked_data: a rank function decreasing "
+            "along the store's edges; guards_quiet_on_allocation_ordered_store). With agrees_unique this makes the two directions an "
+            "equivalence on guard-free runs. NOT proved: freeness in the precise sense (bound occurrences of var1 are excluded too), pair / "
             "vector data in case clauses. What the expansions compute is also characterised as before (derived_or_partial, "
             "derived_cond_test_partial, derived_cond_arrow_partial, derived_or_first_true). cond (t) final: native #<void> vs expansion "
             "#f when t is false (derived_cond_test_final, cond_test_final_differs; R7RS unspecified; the REAL VM answers #f, i.e. "
             "Spec.Eval's 'void' is not the implementation's choice here — not exercised by the generator): excluded. case (else r ...): "
             "CLOSED exactly (same state) from every state in which the key evaluates without effect (t01_2_case_else; a constant key "
             "in every state); with an unbound key the two differ (case_else_unbound_key_differs: native error, expansion the body). "
-            "OPEN (first half only): delay / delay-force (the prelude represents promises as lists and force as a library procedure; "
-            "Spec.Eval has native promise "
-            "cells: a change of representation). T01.3 (compiler correctness: compile+run of Vm/Compile.lean + Vm/Machine.lean "
+            "delay / force (a change of REPRESENTATION: Spec.Eval has native promise cells, the prelude the list ((done? . value-or-thunk)) "
+            "and library procedures make-promise/force/promise-done?/promise-value/promise-update!; Lemmas/EvalPromise*.lean): "
+            "prelude_promise_library (the five regenerated definitions evaluate to the closures the proofs are about, by rfl), "
+            "PromRep (representation relation: native cell vs root pair + box, same done flag, payloads related / thunks "
+            "(lambda () e) vs (lambda () (make-promise #t e))), t01_2_delay_unforced (zero forces: both build the representation of "
+            "one unforced promise, no effect), t01_2_delay — PARTIAL, restricted fragment: (force (delay e)) native (slack-1 guarded) "
+            "definite => the two-step expansion run with the prelude's library (9 more levels of fuel) has the same kind of outcome, "
+            "error class, output log, a value that is the image of the same value, and BOTH promises end forced holding it "
+            "(SpanAgree: both runs are images under injective location maps of the evaluation of e at the use; "
+            "promise_agrees_observables), t01_2_force_again (forcing a forced promise returns the payload on both sides with no "
+            "output and no user code: forced several times = evaluated once), promise_programs_agree (kernel-checked: forced twice "
+            "prints once, never forced prints nothing, R7RS 4.2.5 re-entrancy 6/6 on both sides and on the real VM, a delay-force "
+            "chain). Proof: converse simulation (native run => eager evaluation I of e), T01.1 frame property for guardN "
+            "(recOK_guardN: rebinding the global force), a forward simulation WITH A FRAME (Lemmas/EvalPromiseJ*.lean: cells of "
+            "the larger store outside the image stay as they are — the promise cell / the structure and call frames survive the "
+            "evaluation of e), symbolic execution of the library closures (EvalPromiseX). RESTRICTIONS: e and every value of the "
+            "state do not mention the symbol force (decidable: mentions k_force e = false; Inv k_force st), e not a definition, "
+            "force/make-promise not shadowed at the use, evaluating e leaves the library's globals (incl. car cdr cons list "
+            "set-car! set-cdr!) alone (hkeep, semantic: redefining car breaks the prelude's force, not a native one). OPEN: the "
+            "general VRelP simulation (promises flowing through arbitrary code: needs a Kripke-style growing location map, the "
+            "prelude's force allocates call frames the native one does not; and pair?/equal? distinguish the representations), "
+            "delay-force (no native meaning in Spec.Eval: first half + chain example vs the R7RS reading (delay (force e))). T01.3 (compiler correctness: compile+run of Vm/Compile.lean + Vm/Machine.lean "
             "agrees with Spec.Eval), ALL PARTIAL, on the model machine Vm.step over an abstract heap with explicit assumed law "
             "structures. STAGE 1 success (compile_correct_stage1_partial, Lemmas/CompileCorrect*.lean): closure-free fragment "
             "(constants, quote of atoms, global reference, set! of a global, if, application with a non-keyword head; (define x e) "
@@ -268,6 +296,36 @@ THEOREMS = [
     "Marwood.Spec.Eval.Derived.memvTest_eval",
     "Marwood.Spec.Eval.Extra.recSim",
     "Marwood.Spec.Eval.Extra.binder_agree",
+    "Marwood.Proofs.C01.slack_guarded_refines",
+    "Marwood.Proofs.C01.slack_zero_is_guard",
+    "Marwood.Proofs.C01.extra_cell_invariance_converse",
+    "Marwood.Proofs.C01.converse_gives_forward",
+    "Marwood.Proofs.C01.guards_quiet_on_ranked_data",
+    "Marwood.Proofs.C01.guards_quiet_on_allocation_ordered_store",
+    "Marwood.Proofs.C01.t01_2_or_converse",
+    "Marwood.Proofs.C01.t01_2_cond_test_converse",
+    "Marwood.Proofs.C01.t01_2_cond_arrow_converse",
+    "Marwood.Proofs.C01.t01_2_case_key_converse",
+    "Marwood.Proofs.C01.t01_2_case_body_converse",
+    "Marwood.Proofs.C01.t01_2_case_arrow_converse",
+    "Marwood.Proofs.C01.converse_native_definite",
+    "Marwood.Spec.Eval.Conv.recSimR",
+    "Marwood.Spec.Eval.Conv.recSimR_guard",
+    "Marwood.Spec.Eval.Conv.cut_transfer",
+    "Marwood.Spec.Eval.Derived.binder_agree_conv",
+    "Marwood.Proofs.C01.prelude_promise_library",
+    "Marwood.Proofs.C01.t01_2_delay_expands",
+    "Marwood.Proofs.C01.t01_2_delay_unforced",
+    "Marwood.Proofs.C01.t01_2_delay",
+    "Marwood.Proofs.C01.promise_agrees_observables",
+    "Marwood.Proofs.C01.t01_2_force_again",
+    "Marwood.Proofs.C01.promise_programs_agree",
+    "Marwood.Spec.Eval.ExtraJ.recSimJ",
+    "Marwood.Spec.Eval.Derived.native_leg",
+    "Marwood.Spec.Eval.Derived.expansion_leg",
+    "Marwood.Spec.Eval.Derived.forceDelayX_ok",
+    "Marwood.Spec.Eval.Derived.forceDelayX_err",
+    "Marwood.Spec.Eval.recOK_guardN",
     "Marwood.Spec.Eval.wf_evalN",
     "Marwood.Spec.Eval.wf_initSt",
     "Marwood.Spec.Eval.guardN_le_evalN",
